@@ -411,11 +411,16 @@ impl ArenaAllocator {
 
     /// Creates a new epoch and returns its ID.
     pub fn new_epoch(&self) -> EpochId {
+        // Publish the epoch number and its arena together: a concurrent `alloc()` or
+        // `arena(current_epoch())` that already sees the new number waits on the map
+        // lock until the arena is there, instead of panicking on a missing epoch.
+        let mut arenas = self.arenas.write();
+
         let new_id = self.current_epoch.fetch_add(1, Ordering::AcqRel) as u64 + 1;
         let epoch = EpochId::new(new_id);
 
         let arena = Arena::with_chunk_size(epoch, self.chunk_size);
-        self.arenas.write().insert(epoch, arena);
+        arenas.insert(epoch, arena);
 
         epoch
     }
